@@ -144,7 +144,7 @@ REGISTRY["C17"] = {
 }
 
 REGISTRY["C05"] = {
-    "modules": ["contracts.decoder", "contracts.rt"],
+    "modules": ["contracts.decoder", "contracts.disasm", "contracts.rt"],
     "category": "other",
     "technique": "contract-based deductive verification of ispec.decode on symbolic bytes (instruction.bytes = the consumed prefix, every delivered argument a function of those bytes only) for every shipped specification; run-time contracts with the real setup functions for the variable-length ISAs",
     "level_text": "Proof-level part: for every shipped specification and ALL instruction words and trailing bytes, ispec.decode records exactly the first blen bytes and hands the setup function values that are terms over those bytes only (the C03 contract with symbolic tails). Bounded part (run-time contracts, concrete spec-driven inputs, all cpu modules with their real setup functions): i.bytes == b[:length], 1 <= length <= len(b), and decoding b[:length], b[:length]+t, and the maxlen window give the same instruction. The check's level is the weaker one.",
